@@ -138,7 +138,7 @@ def callers(program, target_fn, scope_funcs, receiver_cls=None):
 
 
 def _all_nested(fn):
-    for g in fn.nested().values():
+    for g in fn.nested_list():
         yield g
         yield from _all_nested(g)
 
